@@ -55,11 +55,13 @@ type baseRecord struct {
 
 type dataRecord struct {
 	baseRecord
+	// encodeErr is the first error hit while serializing the elements in GetBuffer.
+	encodeErr error
 }
 
 func NewDataRecord(id uint16, numElements, numExtraElements int, isDecoding bool) *dataRecord {
 	return &dataRecord{
-		baseRecord{
+		baseRecord: baseRecord{
 			fieldCount:         0,
 			templateID:         id,
 			isDecoding:         isDecoding,
@@ -76,7 +78,7 @@ func NewDataRecordFromElements(id uint16, elements []InfoElementWithValue, isDec
 		}
 	}
 	return &dataRecord{
-		baseRecord{
+		baseRecord: baseRecord{
 			fieldCount:         uint16(len(elements)),
 			templateID:         id,
 			isDecoding:         isDecoding,
@@ -212,10 +214,23 @@ func (d *dataRecord) GetBuffer() []byte {
 		err := encodeInfoElementValueToBuff(element, d.buffer, index)
 		if err != nil {
 			klog.Error(err)
+			if d.encodeErr == nil {
+				d.encodeErr = err
+			}
 		}
 		index += element.GetLength()
 	}
 	return d.buffer
+}
+
+// EncodingError returns the first error hit when the buffer of a data record was
+// built by GetBuffer, i.e., whether the buffer holds a value that could not be
+// encoded for its element. It returns nil for any other kind of record.
+func EncodingError(rec Record) error {
+	if d, ok := rec.(*dataRecord); ok {
+		return d.encodeErr
+	}
+	return nil
 }
 
 func (d *dataRecord) GetRecordLength() int {
